@@ -8,6 +8,7 @@ import (
 	"context"
 	"crypto"
 	"crypto/x509"
+	"slices"
 
 	"github.com/pion/dtls/v3/internal/ciphersuite"
 	dtlsconfig "github.com/pion/dtls/v3/internal/config"
@@ -186,7 +187,15 @@ func flight5Generate(
 
 		// Find compatible signature scheme
 
-		signatureHashAlgo, err := signaturehash.SelectSignatureScheme(state.RemoteCertRequestAlgs, signer)
+		// Only schemes this endpoint allows itself: the request lists what the
+		// server accepts, not what the client's own policy permits.
+		allowed := make([]signaturehash.Algorithm, 0, len(state.RemoteCertRequestAlgs))
+		for _, requested := range state.RemoteCertRequestAlgs {
+			if slices.Contains(cfg.LocalSignatureSchemes, requested) {
+				allowed = append(allowed, requested)
+			}
+		}
+		signatureHashAlgo, err := signaturehash.SelectSignatureScheme(allowed, signer)
 		if err != nil {
 			return nil, &alert.Alert{Level: alert.Fatal, Description: alert.InsufficientSecurity}, err
 		}
